@@ -1924,7 +1924,7 @@ class Exec:
                 self.def_unfoldings += 1
         invs = spec.inv(cx)
         for (lab, f) in invs:
-            self.oblig(st, f'inv.{key}.init.{lab}', f, 'invariant-init', tags)
+            self.oblig(st, f'inv.{key}.init.{lab}', f, 'invariant-init', set(tags) | set(getattr(spec, 'label_tags', {}).get(lab, ())))
         # write set of the loop by a quiet dry run
         if key not in self.loop_writes:
             saved_w, saved_lc = self.writes, dict(self.loopcount)
@@ -1991,7 +1991,7 @@ class Exec:
                     cases = spec.split_by_label(cx2, Ctx(self, b0, self.entry, self.args0, None), lab) or [('', None)]
                 for cl, cc in cases:
                     if cc is None:
-                        self.oblig(s2, f'inv.{key}.step.{lab}', f, 'invariant-step', tags)
+                        self.oblig(s2, f'inv.{key}.step.{lab}', f, 'invariant-step', set(tags) | set(getattr(spec, 'label_tags', {}).get(lab, ())))
                     else:
                         self.oblig(s2, f'inv.{key}.step.{lab}.{cl}', z3.Implies(cc, f), 'invariant-step', tags)
             if vt0 is not None:
